@@ -94,7 +94,7 @@ CHECKS = {
                 'repository. Plans the interpreter cannot give a meaning are counted as not judged, never as violations.',
     },
     'C13': {
-        'technique': 'property-based testing against a reference model: trees from the corpus, tame grammar derivations '
+        'technique': 'property-based testing against a reference model: trees from the corpus, grammar derivations '
                      'and a targeted shape generator; oracle = independent reflection-based reference walk in textual '
                      'order (visited exactly once, order, is_table / is_target flags) and exhaustive single-node '
                      'replacement compared with an independently built clone',
@@ -103,7 +103,7 @@ CHECKS = {
     },
     'C17': {
         'technique': 'property-based contract testing: parser-produced trees (corpus, targeted unsupported shapes, '
-                     'fragment x frame products, tame derivations, mutations) x 7 dialect names x {get_string, '
+                     'fragment x frame products, production-pair sentences, derivations, mutations) x 7 dialect names x {get_string, '
                      'get_exec_params} x fallback on/off; oracle = exception class contract, fallback output identity, '
                      'structural snapshot of the tree unchanged',
         'level': 'Sampled + a fixed product of 60 expression fragments x 47 clause frames and 30 table fragments x 26 '
